@@ -25,7 +25,8 @@ HARNESS = os.path.join(ROOT, "harness")
 EVID = os.path.join(ROOT, "evidence")
 REPLAYS = os.path.join(ROOT, "replays")
 REPO = "/repo"
-TLC_WORKERS = int(os.environ.get("VERIF_TLC_WORKERS", "8"))
+TLC_WORKERS = int(os.environ.get("VERIF_TLC_WORKERS", "4"))
+JOBS_PAR = int(os.environ.get("VERIF_JOBS", "6"))
 
 
 class ToolError(Exception):
@@ -49,13 +50,21 @@ def build_harness(profile):
     lock = os.path.join(HARNESS, "Cargo.lock")
     if not os.path.exists(lock):
         shutil.copy(os.path.join(REPO, "Cargo.lock"), lock)
-    cmd = ["cargo", "build", "--offline", "--quiet"]
+    # one target directory per profile, so that the two builds can run side by side
+    tdir = os.path.join(HARNESS, "target", "p-" + profile)
+    cmd = ["cargo", "build", "--offline", "--quiet", "--target-dir", tdir]
     if profile == "release":
         cmd.append("--release")
     p = sh(cmd, cwd=HARNESS, timeout=1200, check=False)
     if p.returncode != 0:
         raise ToolError("harness build failed (%s):\n%s" % (profile, p.stdout[-6000:]))
-    return os.path.join(HARNESS, "target", profile if profile == "release" else "debug", "verif-harness")
+    return os.path.join(tdir, profile if profile == "release" else "debug", "verif-harness")
+
+
+def build_all(profiles):
+    from concurrent.futures import ThreadPoolExecutor
+    with ThreadPoolExecutor(max_workers=len(profiles)) as ex:
+        return dict(zip(profiles, ex.map(build_harness, profiles)))
 
 
 # --------------------------------------------------------------------- TLC --
@@ -139,73 +148,88 @@ MICRO_INVS = ["Safe", "Bounded", "IdleWellFormed"]
 ALL_INVS = ["TypeOK", "Bounded", "UniqueKeys", "RefinesDict", "Conservation", "UncheckedAgrees", "DisjointAgrees"]
 
 
+def one_job(pid, tier, seed, job, bins):
+    """TLC on one job, then the replay of its table in every build profile.
+    Returns (tlc summary, [(profile, report or None, crash-failure or None)], table, jkey)."""
+    tag = "%s-%s-%s" % (pid, tier, job["tag"])
+    jkey = job_key(job)
+    pair = job.get("spec") == "pair"
+    micro = job.get("spec") == "micro"
+    if micro:
+        consts = {"Cap": 2, "Classes": [1, 2, 3], "Adv": False, "Budget": 1, "Mode": job.get("mode", "map"),
+                  "Fams": job["family"], "MaxJ": 2, "MaxItems": 2, "Emit": True}
+    elif pair:
+        consts = {"CapA": 2, "CapB": 2, "Classes": [0, 1, 2], "VerA": 0, "VerB": 1, "Vals": [0, 1], "Mode": job.get("mode", "set"),
+                  "Family": job["family"], "Emit": True}
+    else:
+        consts = {"Caps": [0, 1, 2], "Classes": [0, 1, 2], "Vers": [0, 1], "Vals": [0, 1], "Mode": job.get("mode", "map"),
+                  "Family": job["family"], "Emit": True, "MaxKs": 3, "MaxExtra": 2}
+    consts.update(job.get("consts", {}))
+    if consts["Mode"] == "set" and not micro:
+        consts["Vals"] = [0]
+    table = os.path.join(WORK, "table-%s.ndjson" % tag)
+    st = run_tlc(tag, "MapMicro" if micro else "PairSpec" if pair else "MapSpec", consts,
+                 MICRO_INVS if micro else PAIR_INVS if pair else ALL_INVS, table_path=table, timeout=job.get("timeout", 1500))
+    if not st["ok"]:
+        raise ToolError("TLC reports an error on the specification itself (%s):\n%s" % (tag, st["text"][-3000:]))
+    if st["emitted"] == 0:
+        raise ToolError("vacuous run: TLC emitted no transition for %s" % tag)
+    outs = []
+    for prof, binp in bins.items():
+        rep_path = os.path.join(WORK, "report-%s-%s.json" % (tag, prof))
+        prog = os.path.join(WORK, "progress-%s-%s.txt" % (tag, prof))
+        cmd = [binp, "replay", "--table", table, "--mode", consts["Mode"], "--edges", "--out", rep_path, "--progress", prog,
+               "--walks", str(job.get("walks", 20)), "--steps", str(job.get("steps", 500)), "--seed", str(seed)]
+        if pair:
+            cmd = [binp, "pairs", "--table", table, "--mode", consts["Mode"], "--out", rep_path, "--progress", prog]
+        if micro:
+            cmd = [binp, "micro", "--table", table, "--mode", consts["Mode"], "--adv", "1" if consts["Adv"] else "0", "--out", rep_path, "--progress", prog]
+        elif job.get("sweep"):
+            cmd = [binp, job["sweep"], "--table", table, "--mode", consts["Mode"], "--out", rep_path, "--progress", prog,
+                   "--stride", str(job.get("stride", 1)), "--offset", str(seed % job.get("stride", 1)), "--max-leaves", str(job.get("max_leaves", 256))]
+        if os.path.exists(rep_path):
+            os.remove(rep_path)
+        p = subprocess.run(cmd, stdout=subprocess.PIPE, stderr=subprocess.STDOUT, text=True, timeout=3000)
+        if p.returncode != 0 or not os.path.exists(rep_path):
+            # the code under test crashed the process: that is data
+            case = open(prog).read().strip() if os.path.exists(prog) else "?"
+            line = None
+            try:
+                with open(table) as tf:
+                    for i, l in enumerate(tf):
+                        if i == int(case):
+                            line = json.loads(l)
+                            break
+            except Exception:
+                pass
+            outs.append((prof, None, {"how": "the harness process died (signal/abort) while executing this transition (%s build)" % prof,
+                                      "msg": "exit status %s; output: %s" % (p.returncode, p.stdout[-1500:]), "transition": line, "table": table,
+                                      "line": case, "jobkey": jkey}))
+        else:
+            outs.append((prof, json.load(open(rep_path)), None))
+    return st, outs, table, jkey, tag
+
+
 def mapgraph(pid, tier, seed, jobs, profiles):
     """jobs: list of dicts {tag, mode, family, consts-overrides, walks, steps}.
     Runs TLC per job (model checking + emission), then replays the emitted graph into the
-    real crate in every requested build profile. Returns (summary, failures)."""
-    bins = {prof: build_harness(prof) for prof in profiles}
+    real crate in every requested build profile; jobs run concurrently. Returns (summary, failures)."""
+    from concurrent.futures import ThreadPoolExecutor
+    bins = build_all(profiles)
     summary = {"tlc": [], "replays": [], "states": 0, "transitions": 0, "emitted": 0, "replayed_edges": 0,
                "walk_steps": 0, "drift": 0, "samples": [], "op_counts": {}}
     failures = []  # (props-set, example)
-    for job in jobs:
-        tag = "%s-%s-%s" % (pid, tier, job["tag"])
-        jkey = job_key(job)
-        pair = job.get("spec") == "pair"
-        micro = job.get("spec") == "micro"
-        if micro:
-            consts = {"Cap": 2, "Classes": [1, 2, 3], "Adv": False, "Budget": 1, "Mode": job.get("mode", "map"),
-                      "Fams": job["family"], "MaxJ": 2, "MaxItems": 2, "Emit": True}
-        elif pair:
-            consts = {"CapA": 2, "CapB": 2, "Classes": [0, 1, 2], "VerA": 0, "VerB": 1, "Vals": [0, 1], "Mode": job.get("mode", "set"),
-                      "Family": job["family"], "Emit": True}
-        else:
-            consts = {"Caps": [0, 1, 2], "Classes": [0, 1, 2], "Vers": [0, 1], "Vals": [0, 1], "Mode": job.get("mode", "map"),
-                      "Family": job["family"], "Emit": True, "MaxKs": 3, "MaxExtra": 2}
-        consts.update(job.get("consts", {}))
-        if consts["Mode"] == "set" and not micro:
-            consts["Vals"] = [0]
-        table = os.path.join(WORK, "table-%s.ndjson" % tag)
-        st = run_tlc(tag, "MapMicro" if micro else "PairSpec" if pair else "MapSpec", consts,
-                     MICRO_INVS if micro else PAIR_INVS if pair else ALL_INVS, table_path=table, timeout=job.get("timeout", 1500))
-        if not st["ok"]:
-            raise ToolError("TLC reports an error on the specification itself (%s):\n%s" % (tag, st["text"][-3000:]))
-        if st["emitted"] == 0:
-            raise ToolError("vacuous run: TLC emitted no transition for %s" % tag)
+    with ThreadPoolExecutor(max_workers=JOBS_PAR) as ex:
+        results = list(ex.map(lambda j: one_job(pid, tier, seed, j, bins), jobs))
+    for st, outs, table, jkey, tag in results:
         summary["tlc"].append({k: st[k] for k in ("tag", "generated", "distinct", "emitted", "wall", "consts", "cmd")})
         summary["states"] += st["distinct"]
         summary["transitions"] += st["generated"]
         summary["emitted"] += st["emitted"]
-        for prof, binp in bins.items():
-            rep_path = os.path.join(WORK, "report-%s-%s.json" % (tag, prof))
-            prog = os.path.join(WORK, "progress-%s-%s.txt" % (tag, prof))
-            cmd = [binp, "replay", "--table", table, "--mode", consts["Mode"], "--edges", "--out", rep_path, "--progress", prog,
-                   "--walks", str(job.get("walks", 20)), "--steps", str(job.get("steps", 500)), "--seed", str(seed)]
-            if pair:
-                cmd = [binp, "pairs", "--table", table, "--mode", consts["Mode"], "--out", rep_path, "--progress", prog]
-            if micro:
-                cmd = [binp, "micro", "--table", table, "--mode", consts["Mode"], "--adv", "1" if consts["Adv"] else "0", "--out", rep_path, "--progress", prog]
-            elif job.get("sweep"):
-                cmd = [binp, job["sweep"], "--table", table, "--mode", consts["Mode"], "--out", rep_path, "--progress", prog,
-                       "--stride", str(job.get("stride", 1)), "--offset", str(seed % job.get("stride", 1)), "--max-leaves", str(job.get("max_leaves", 256))]
-            if os.path.exists(rep_path):
-                os.remove(rep_path)
-            p = subprocess.run(cmd, stdout=subprocess.PIPE, stderr=subprocess.STDOUT, text=True, timeout=3000)
-            if p.returncode != 0 or not os.path.exists(rep_path):
-                # the code under test crashed the process: that is data
-                case = open(prog).read().strip() if os.path.exists(prog) else "?"
-                line = None
-                try:
-                    with open(table) as tf:
-                        for i, l in enumerate(tf):
-                            if i == int(case):
-                                line = json.loads(l)
-                                break
-                except Exception:
-                    pass
-                failures.append(({"CRASH"}, {"how": "the harness process died (signal/abort) while executing this transition (%s build)" % prof,
-                                             "msg": "exit status %s; output: %s" % (p.returncode, p.stdout[-1500:]), "transition": line, "table": table, "line": case, "jobkey": jkey}))
+        for prof, rep, crash in outs:
+            if crash is not None:
+                failures.append(({"CRASH"}, crash))
                 continue
-            rep = json.load(open(rep_path))
             summary["replays"].append({"tag": tag, "profile": prof, "edges": rep["edges"], "walks": rep["walks"], "walk_steps": rep["walk_steps"],
                                        "drift": rep["drift"], "poison_active": rep["poison_active"], "distinct_states": rep["distinct_states"]})
             if "sweep" in rep:
@@ -230,13 +254,13 @@ def mapgraph(pid, tier, seed, jobs, profiles):
             if rep["drift_examples"]:
                 summary.setdefault("drift_examples", []).extend(rep["drift_examples"][:1])
             for prop, exs in rep["fail_examples"].items():
-                for ex in exs:
-                    ex = dict(ex)
-                    ex["profile"] = prof
-                    ex["table"] = table
-                    ex["count"] = rep["fail_counts"].get(prop, 0)
-                    ex["jobkey"] = jkey
-                    failures.append(({prop}, ex))
+                for ex_ in exs:
+                    e2 = dict(ex_)
+                    e2["profile"] = prof
+                    e2["table"] = table
+                    e2["count"] = rep["fail_counts"].get(prop, 0)
+                    e2["jobkey"] = jkey
+                    failures.append(({prop}, e2))
     return summary, failures
 
 
@@ -474,8 +498,7 @@ def main():
     try:
         if cmd == "setup":
             os.makedirs(WORK, exist_ok=True)
-            for prof in ("debug", "release"):
-                build_harness(prof)
+            build_all(["debug", "release"])
             for f in sorted(os.listdir(SPEC)):
                 if f.endswith(".tla"):
                     p = sh(["tla-sany", f], cwd=SPEC, timeout=120, check=False)
